@@ -48,6 +48,16 @@ def run(ctx: Ctx):
               ' stage) pull from it under a lock, whatever kind of iterator it is'
               ' (R-C13-1) — its __next__ also updates that stage\'s aggregate',
               c13.r1, min_instances=3)
+  from mlmverif.props import c04
+  from mlmverif.props._queue import model as qmodel
+  ctx.include('R-C03-11', '"with any number of worker threads ... through the'
+              ' interleaved stage runner": the queue that links worker threads'
+              ' and stages reports end-of-stream only from a state in which'
+              ' nothing is left inside it — the emptiness test and the'
+              ' enqueue_done test of a non-blocking get are one atomic step under'
+              ' the states lock, and the return values are recorded before done'
+              ' can be observed (R-C04-6); every dequeue wakes a blocked producer'
+              ' (R-C04-5)', _c04_shared, qmodel(ctx), min_instances=6)
   ctx.include('R-C03-10', '"over any number of shards whose states are merged":'
               ' every incoming (metric, slice) entry is merged into the result on'
               ' every path (R-C16-5)', c16.r5, min_instances=1)
@@ -56,6 +66,12 @@ def run(ctx: Ctx):
               ' ranges of merged sequences: the rebuilt shard is the recorded'
               ' one incl. its configuration (R-C09-2) and a range never reads'
               ' past its stop (R-C09-6)', _c09_shared, min_instances=5)
+
+
+def _c04_shared(sub, m):
+  from mlmverif.props import c04
+  sub.guard(c04.r6, m)
+  sub.guard(c04.r5, m)
 
 
 def _c09_shared(sub):
